@@ -89,8 +89,6 @@ def scorer_cases(draw, tier):
         cuts = [draw(cut3(n, ms)) for _ in range(draw(st.integers(1, 6)))]
     else:
         cuts = [draw(cut4(n, ms)) for _ in range(draw(st.integers(1, 4)))]
-        cuts = [c for c in cuts if c[3] <= n and (c[1] - c[0]) + (c[3] - c[2]) >= ms and c[2] - c[1] >= ms] or \
-            [[0, 1, 1 + ms, max(2 + ms, 1 + 2 * ms)]]
     return {"scorer": name, "X": X, "cuts": cuts, "t": draw(transformation(p, kinds))}
 
 
